@@ -1,0 +1,46 @@
+//! Simulation seams, compiled only with `--cfg zcash_librustzcash_verif`. With no hook registered on
+//! the current thread every function here falls through to the normal behaviour.
+use std::cell::RefCell;
+use std::collections::HashMap;
+
+type Spawner = Box<dyn Fn(Box<dyn FnOnce() + Send + 'static>)>;
+
+thread_local! {
+    static SPAWNER: RefCell<Option<Spawner>> = const { RefCell::new(None) };
+    static KNOBS: RefCell<HashMap<&'static str, usize>> = RefCell::new(HashMap::new());
+}
+
+/// Registers (or clears) the task spawner used in place of the global thread pool on this thread.
+pub fn set_spawner(spawner: Option<Spawner>) {
+    SPAWNER.with(|s| *s.borrow_mut() = spawner);
+}
+
+/// Overrides (or clears) a tuning constant on this thread.
+pub fn set_knob(name: &'static str, value: Option<usize>) {
+    KNOBS.with(|k| match value {
+        Some(v) => {
+            k.borrow_mut().insert(name, v);
+        }
+        None => {
+            k.borrow_mut().remove(name);
+        }
+    });
+}
+
+pub(crate) fn knob(name: &'static str, default: usize) -> usize {
+    KNOBS.with(|k| k.borrow().get(name).copied().unwrap_or(default))
+}
+
+/// Hands `task` to the registered spawner, or returns it if none is registered.
+pub(crate) fn intercept_spawn<T: FnOnce() + Send + 'static>(task: T) -> Option<T> {
+    SPAWNER.with(|s| {
+        let guard = s.borrow();
+        match guard.as_ref() {
+            Some(spawn) => {
+                spawn(Box::new(task));
+                None
+            }
+            None => Some(task),
+        }
+    })
+}
